@@ -63,9 +63,11 @@ Theorem built_message_laid_out c ops s0 s a ws :
   run_acc c s0 acc0 ops = (s, a, ws) -> all_alive ws ->
   Forall (fun b => b < 256) (b_hdr s) ->
   Forall (fun r => r_type r <> C11.Model.RTYPE_TSIG) (a_ar a) ->
+  Forall (fun r => r_type r <> C11.Model.RTYPE_TSIG) (a_an a) ->
+  Forall (fun r => r_type r <> C11.Model.RTYPE_TSIG) (a_ns a) ->
   MsgAt (msg_of s) (length (a_q a)) (map r_type (a_an a)) (map r_type (a_ns a)) (map r_type (a_ar a)).
 Proof.
-  intros HI Hwf HR AL Hh Hno. destruct (init_inv c s0 HI) as (HB0 & HC0).
+  intros HI Hwf HR AL Hh Hno Hnoan Hnons. destruct (init_inv c s0 HI) as (HB0 & HC0).
   destruct (run_acc_layout c ops s0 acc0 [12] s a ws HB0 HC0 (init_layout c s0 HI) Hwf HR AL) as (HB & HC & bs & HL).
   destruct HB as (_ & _ & L & _).
   destruct HC as (c1 & c2 & c3 & c4 & _).
@@ -100,7 +102,7 @@ Proof.
   split; [unfold C11.Model.ancount; rewrite map_length, <- c2; apply (hdr_count_at _ 6); [exact H2|lia]|].
   split; [unfold C11.Model.nscount; rewrite map_length, <- c3; apply (hdr_count_at _ 8); [exact H3|lia]|].
   split; [unfold C11.Model.arcount; rewrite map_length, <- c4; apply (hdr_count_at _ 10); [exact H4|lia]|].
-  split; [apply Forall_map; exact Hno|].
+  split; [apply Forall_map; exact Hno|]. split; [apply Forall_map; exact Hnoan|]. split; [apply Forall_map; exact Hnons|].
   exists e0, e1, e2. split; [apply QsAt_QuestionsAt; exact Q0'|].
   split; [apply RsAt_RecordsAt; exact R1'|]. split; [apply RsAt_RecordsAt; exact R2'|]. apply RsAt_RecordsAt; exact R3'.
 Qed.
@@ -111,6 +113,7 @@ Theorem sign_verify_request_built mac :
   forall c ops s0 s a ws ks kr t fudge now cx w,
   init c = Some s0 -> Forall wf_op ops -> run_acc c s0 acc0 ops = (s, a, ws) -> all_alive ws ->
   Forall (fun b => b < 256) (b_hdr s) -> Forall (fun r => r_type r <> C11.Model.RTYPE_TSIG) (a_ar a) ->
+  Forall (fun r => r_type r <> C11.Model.RTYPE_TSIG) (a_an a) -> Forall (fun r => r_type r <> C11.Model.RTYPE_TSIG) (a_ns a) ->
   C11.Proofs2.same_key ks kr -> C11.Model.k_min kr <= C11.Model.k_sign ks ->
   C11.Model.within_len_bounds (C11.Model.k_alg ks) (C11.Model.k_sign ks) = true ->
   name_ok (C11.Model.k_name ks) -> t < C11.Model.T48_LIMIT -> fudge < 65536 ->
@@ -119,6 +122,44 @@ Theorem sign_verify_request_built mac :
   exists rr, w = C11.Model.set_arcount (msg_of s) (C11.Model.arcount (msg_of s) + 1) ++ rr /\
     C11.Model.server_request mac kr w now = Ok (C11.Model.SrvOk cx (msg_of s ++ rr)).
 Proof.
-  intros Hl c ops s0 s a ws ks kr t fudge now cx w HI Hwf HR AL Hh Hno Hk Hmin Hw Hn Ht Hf Hreq Hwin.
+  intros Hl c ops s0 s a ws ks kr t fudge now cx w HI Hwf HR AL Hh Hno Hnoan Hnons Hk Hmin Hw Hn Ht Hf Hreq Hwin.
   eapply sign_verify_request_full; eauto. eapply built_message_laid_out; eauto.
+Qed.
+
+(* ... and the BADTIME and answer theorems for builder output *)
+Theorem request_outside_window_badtime_built mac :
+  (forall a k d, len (mac a k d) = C11.Model.native_len a) ->
+  forall c ops s0 s a ws ks kr t fudge now cx w,
+  init c = Some s0 -> Forall wf_op ops -> run_acc c s0 acc0 ops = (s, a, ws) -> all_alive ws ->
+  Forall (fun b => b < 256) (b_hdr s) -> Forall (fun r => r_type r <> C11.Model.RTYPE_TSIG) (a_ar a) ->
+  Forall (fun r => r_type r <> C11.Model.RTYPE_TSIG) (a_an a) -> Forall (fun r => r_type r <> C11.Model.RTYPE_TSIG) (a_ns a) ->
+  C11.Proofs2.same_key ks kr -> C11.Model.k_min kr <= C11.Model.k_sign ks ->
+  C11.Model.within_len_bounds (C11.Model.k_alg ks) (C11.Model.k_sign ks) = true ->
+  name_ok (C11.Model.k_name ks) -> t < C11.Model.T48_LIMIT -> fudge < 65536 ->
+  C11.Model.client_request mac ks (msg_of s) t fudge = Ok (cx, w) ->
+  C11.Model.is_valid_at t fudge now = false ->
+  C11.Model.server_request mac kr w now =
+    Ok (C11.Model.SrvBadTime cx (C11.Model.Vars t fudge C11.Gen.RC_BADTIME (Some now))).
+Proof.
+  intros Hl c ops s0 s a ws ks kr t fudge now cx w HI Hwf HR AL Hh Hno Hnoan Hnons Hk Hmin Hw Hn Ht Hf Hreq Hwin.
+  eapply request_outside_window_badtime_full; eauto. eapply built_message_laid_out; eauto.
+Qed.
+
+Theorem sign_verify_answer_built mac :
+  (forall a k d, len (mac a k d) = C11.Model.native_len a) ->
+  forall c ops s0 s a ws ks kr cx t fudge now w,
+  init c = Some s0 -> Forall wf_op ops -> run_acc c s0 acc0 ops = (s, a, ws) -> all_alive ws ->
+  Forall (fun b => b < 256) (b_hdr s) -> Forall (fun r => r_type r <> C11.Model.RTYPE_TSIG) (a_ar a) ->
+  Forall (fun r => r_type r <> C11.Model.RTYPE_TSIG) (a_an a) -> Forall (fun r => r_type r <> C11.Model.RTYPE_TSIG) (a_ns a) ->
+  C11.Proofs2.same_key ks kr -> C11.Model.k_min kr <= C11.Model.k_sign ks ->
+  C11.Model.within_len_bounds (C11.Model.k_alg ks) (C11.Model.k_sign ks) = true ->
+  name_ok (C11.Model.k_name ks) -> t < C11.Model.T48_LIMIT -> fudge < 65536 ->
+  (C11.Model.hdr_rcode (msg_of s) =? C11.Gen.RC_NOTAUTH) = false ->
+  C11.Model.server_answer mac ks cx (msg_of s) t fudge = Ok w ->
+  C11.Model.is_valid_at t fudge now = true ->
+  exists rr, w = C11.Model.set_arcount (msg_of s) (C11.Model.arcount (msg_of s) + 1) ++ rr /\
+    C11.Model.client_answer mac kr cx w now = Ok (msg_of s ++ rr).
+Proof.
+  intros Hl c ops s0 s a ws ks kr cx t fudge now w HI Hwf HR AL Hh Hno Hnoan Hnons Hk Hmin Hw Hn Ht Hf Hrc Hans Hwin.
+  eapply sign_verify_answer_full; eauto. eapply built_message_laid_out; eauto.
 Qed.
